@@ -198,7 +198,7 @@ pub struct Parsed {
 /// Recursive-descent locale parser. `lenient` additionally skips runs of empty subtags
 /// that are adjacent to a singleton (before it or right after it) or trail the input, and
 /// treats a singleton with an empty body as absent.
-pub fn parse_locale_tokens(tokens_in: &[&[u8]], lenient: bool) -> Result<Parsed, ()> {
+pub fn parse_locale_tokens(tokens_in: &[&[u8]], lenient: bool) -> Result<Parsed, String> {
     let mut tokens: Vec<&[u8]> = tokens_in.to_vec();
     if lenient {
         while tokens.len() > 1 && tokens.last().map_or(false, |t| t.is_empty()) {
@@ -206,7 +206,7 @@ pub fn parse_locale_tokens(tokens_in: &[&[u8]], lenient: bool) -> Result<Parsed,
         }
     }
     let mut pos = 0usize;
-    let id = langid_prefix(&tokens, &mut pos).ok_or(())?;
+    let id = langid_prefix(&tokens, &mut pos).ok_or_else(|| "first-not-language".to_string())?;
     let mut p = Parsed::default();
     p.model.id = id;
     let mut seen: Vec<u8> = vec![];
@@ -221,7 +221,7 @@ pub fn parse_locale_tokens(tokens_in: &[&[u8]], lenient: bool) -> Result<Parsed,
         skip_empty(&mut pos);
         let Some(t) = tokens.get(pos) else { break };
         if !is_singleton(t) {
-            return Err(());
+            return Err(format!("expected-singleton:{}", tok_class(t)));
         }
         let s = t[0].to_ascii_lowercase();
         pos += 1;
@@ -233,7 +233,7 @@ pub fn parse_locale_tokens(tokens_in: &[&[u8]], lenient: bool) -> Result<Parsed,
                 let mut tags = vec![];
                 while let Some(t) = tokens.get(pos) {
                     if !is_private(t) {
-                        return Err(());
+                        return Err(format!("bad-private-tag:{}", tok_class(t)));
                     }
                     tags.push(lower(t));
                     pos += 1;
@@ -242,7 +242,7 @@ pub fn parse_locale_tokens(tokens_in: &[&[u8]], lenient: bool) -> Result<Parsed,
                     nonempty = true;
                     tags.sort();
                     if seen.contains(&s) {
-                        return Err(());
+                        return Err("repeated-singleton".to_string());
                     }
                     p.model.private = tags;
                 }
@@ -284,7 +284,7 @@ pub fn parse_locale_tokens(tokens_in: &[&[u8]], lenient: bool) -> Result<Parsed,
                 if !attrs.is_empty() || !kws.is_empty() {
                     nonempty = true;
                     if seen.contains(&s) {
-                        return Err(());
+                        return Err("repeated-singleton".to_string());
                     }
                     attrs.sort();
                     attrs.dedup();
@@ -329,7 +329,7 @@ pub fn parse_locale_tokens(tokens_in: &[&[u8]], lenient: bool) -> Result<Parsed,
                 if tlang.is_some() || !tf.is_empty() {
                     nonempty = true;
                     if seen.contains(&s) {
-                        return Err(());
+                        return Err("repeated-singleton".to_string());
                     }
                     p.model.tlang = tlang;
                     p.model.tfields = tf;
@@ -350,7 +350,7 @@ pub fn parse_locale_tokens(tokens_in: &[&[u8]], lenient: bool) -> Result<Parsed,
                 if n > 0 {
                     nonempty = true;
                     if seen.contains(&s) {
-                        return Err(());
+                        return Err("repeated-singleton".to_string());
                     }
                     p.has_other = true;
                 }
@@ -361,19 +361,39 @@ pub fn parse_locale_tokens(tokens_in: &[&[u8]], lenient: bool) -> Result<Parsed,
             p.n_ext += 1;
             p.order.push(s as char);
         } else if !lenient {
-            return Err(());
+            return Err("empty-extension-body".to_string());
         }
     }
     Ok(p)
 }
 
+pub fn tok_class(t: &[u8]) -> String {
+    if t.is_empty() {
+        return "empty".into();
+    }
+    let c = if t.iter().all(|b| is_alpha(*b)) {
+        'a'
+    } else if t.iter().all(|b| is_digit(*b)) {
+        'd'
+    } else if t.iter().all(|b| is_alnum(*b)) {
+        if is_digit(t[0]) {
+            'n'
+        } else {
+            'm'
+        }
+    } else {
+        'x'
+    };
+    format!("len{}{}", t.len().min(10), c)
+}
+
 #[derive(Clone, Debug)]
 pub enum Zone {
     /// well-formed, library must return Ok with exactly this value
-    MustAccept(LocaleModel),
+    MustAccept(LocaleModel, Parsed),
     /// Ok or Err; if Ok the value must equal this model
     Either(LocaleModel, &'static str),
-    MustReject,
+    MustReject(String),
     /// duplicate keyword keys / tfield keys (outside C03)
     OutOfScope,
 }
@@ -389,10 +409,10 @@ pub fn ref_locale(b: &[u8]) -> Zone {
             } else if p.valueless_tkey {
                 Zone::Either(p.model, "tkey-without-tvalue")
             } else {
-                Zone::MustAccept(p.model)
+                Zone::MustAccept(p.model.clone(), p)
             }
         }
-        Err(()) => match parse_locale_tokens(&tokens, true) {
+        Err(_) => match parse_locale_tokens(&tokens, true) {
             Ok(p) => {
                 if p.dup_key {
                     Zone::OutOfScope
@@ -400,7 +420,7 @@ pub fn ref_locale(b: &[u8]) -> Zone {
                     Zone::Either(p.model, "empty-subtag-or-body")
                 }
             }
-            Err(()) => Zone::MustReject,
+            Err(why) => Zone::MustReject(why),
         },
     }
 }
@@ -481,7 +501,7 @@ pub fn is_canonical_locale(out: &str) -> Result<(), String> {
         return Err("byte outside [A-Za-z0-9-]".into());
     }
     let tokens = split(out.as_bytes());
-    let p = parse_locale_tokens(&tokens, false).map_err(|_| "not well-formed".to_string())?;
+    let p = parse_locale_tokens(&tokens, false).map_err(|e| format!("not well-formed ({e})"))?;
     if p.has_other {
         return Err("other extension".into());
     }
@@ -575,7 +595,7 @@ pub fn self_check(b: &[u8]) -> Result<(), String> {
     let r2 = rx().locale.is_match(&n);
     let p2 = match parse_locale_tokens(&split(b), false) {
         Ok(p) => !p.has_other && !p.valueless_tkey,
-        Err(()) => false,
+        Err(_) => false,
     };
     if r2 != p2 {
         return Err(format!(
